@@ -474,7 +474,15 @@ func (self *StateStore) ClearAll() error {
 		self.store.NewBatch() // reset the batch
 		return err
 	}
-	return self.store.BatchCommit()
+	if err := self.store.BatchCommit(); err != nil {
+		return err
+	}
+	// the in-memory accumulators were loaded from the records just deleted: reload them (now empty),
+	// otherwise a re-run of the genesis initialisation appends the genesis leaf a second time
+	if self.merkleHashStore != nil {
+		self.merkleHashStore.Close()
+	}
+	return self.init(0)
 }
 
 //Close state store
